@@ -1,3 +1,30 @@
 import Hs.Thm.C02
+import Hs.Thm.C05perm
 #print axioms Hs.C02.rt_finite_kinds
 #print axioms Hs.C02.rt_str
+#print axioms Hs.C02.rt_num
+#print axioms Hs.C02.rt_num_exact
+#print axioms Hs.C02.rt_num_big
+#print axioms Hs.C02.rt_ref
+#print axioms Hs.C02.rt_uri
+#print axioms Hs.C02.rt_symbol
+#print axioms Hs.C02.rt_xstr
+#print axioms Hs.C02.rt_date
+#print axioms Hs.C02.rt_time
+#print axioms Hs.C02.rt_dateTime
+#print axioms Hs.C02.rt_coord
+#print axioms Hs.C02.coord_nonfinite_err
+#print axioms Hs.C02.visitMap_tagsJson
+#print axioms Hs.C02.rt_val
+#print axioms Hs.C02.rt_list
+#print axioms Hs.C02.rt_dict
+#print axioms Hs.C02.rt_grid
+#print axioms Hs.C02.C02_holds
+#print axioms Hs.C02.C02_identity
+-- C05 (member order): Hs/Thm/C05perm.lean
+#print axioms Hs.C05perm.visitMap_perm
+#print axioms Hs.C05perm.fromJson_obj_perm
+#print axioms Hs.C05perm.hyps_of_perm
+#print axioms Hs.C05perm.fromJson_jperm
+#print axioms Hs.C05perm.ordOK_val
+#print axioms Hs.C05perm.C05_order
